@@ -1540,7 +1540,7 @@ Definition tbl_can_shrink (t : table) (min_cap : nat) : bool := Nat.ltb (tbl_shr
 
 (** storage.Shrink. [stop0] = a zero time budget (stop after the first table that had work);
     otherwise the budget is taken to be unlimited (the default of one hour). *)
-Definition w_shrink (stop0 : bool) : MW bool :=
+Definition w_shrink_core (stop0 : bool) : MW bool :=
   s <- get ;;
   let n := length (w_tables s) in
   r <- (fix go (fuel : nat) (idx : nat) (any : bool) : MW (nat * bool) :=
@@ -1573,6 +1573,11 @@ Definition w_shrink (stop0 : bool) : MW bool :=
          if negb (tbl_has_rels t) then tbl_can_shrink t (cf_cap (w_cfg s))
          else (tbl_can_shrink t (cf_caprel (w_cfg s)) || (negb (t_free t) && Nat.eqb (t_len t) 0))%bool)
        (skipn (S last) (w_tables s))).
+
+(** World.Shrink: like every structure-changing operation it is rejected on a locked world (repair
+    [fix: Shrink panics on a locked world]; it used to run while queries were open, freeing tables out
+    of the table list an open query was walking). *)
+Definition w_shrink (stop0 : bool) : MW bool := check_locked ;;; w_shrink_core stop0.
 
 (** ** Queries: filter_gen.go Query(), query_gen.go cursor, query_count.go *)
 
